@@ -18,6 +18,7 @@ from . import rw
 from .c01 import _build_single
 from .c16 import F8, F16, F32, FWD, MONO, OFF, PP, STEREO, check_sampler, fill_sampler
 
+TECHNIQUE = "contract-based deductive verification (double symbolic round trip with overwrite on loader-produced states, z3/cvc5); shipped fixtures as labelled bounded stand-in"
 LEVEL = "other"
 LEVEL_TEXT = (
     "Mixed. Deductive: for every module class, a module is written with symbolic state S1, loaded (so that it is in whatever state the "
